@@ -17,12 +17,12 @@ let rec parse_blk (toks : string list) : blk * string list =
   | "I" :: m :: n :: r -> let (bs, r') = parse_n (int_of_string n) r in (ListItem (nat_of_int (int_of_string m), bs), r')
   | "V" :: m :: bb :: ba :: n :: r ->
       let (bs, r') = parse_n (int_of_string n) r in
-      (Div (nat_of_int (int_of_string m), bb = "1", nat_of_int (int_of_string ba), bs), r')
+      (Div (nat_of_int (int_of_string m), nat_of_int (int_of_string bb), nat_of_int (int_of_string ba), bs), r')
   | "D" :: m :: fk :: os :: nopts :: bb :: ba :: n :: r ->
       let (bs, r') = parse_n (int_of_string n) r in
       let fk = if fk = "c" then ColonFence else Backtick in
       let os = (match os with "c" -> ColonOpts | "d" -> DashOpts | _ -> NoOpts) in
-      (Dir (nat_of_int (int_of_string m), fk, os, nat_of_int (int_of_string nopts), bb = "1",
+      (Dir (nat_of_int (int_of_string m), fk, os, nat_of_int (int_of_string nopts), nat_of_int (int_of_string bb),
             nat_of_int (int_of_string ba), bs), r')
   | t :: _ -> failwith ("bad token " ^ t)
   | [] -> failwith "unexpected end"
